@@ -879,6 +879,26 @@ func (g *gen) evalCall(env *specEnv, e *SExpr) (Val, error) {
 			return boolVal(app("tnode", app("i_val", args[0].T))), nil
 		}
 		return boolVal(app("tnode", args[0].T)), nil
+	case "rxvalid":
+		// rxvalid(e): e is an expression of a successfully parsed regular expression (theory regex-syntax-valid)
+		if args[0].Typ == nil || !isRxExpr(args[0].Typ) {
+			if p := g.e.byPkg["github.com/quasilyte/regex/syntax"]; p != nil && p.Types != nil {
+				if tn, ok := p.Types.Scope().Lookup("Expr").(*types.TypeName); ok {
+					switch {
+					case g.st.sortOf(tn.Type()) == args[0].Sort:
+						args[0].Typ = tn.Type()
+					case args[0].Sort == "Int":
+						// the address of an Expr stored inside another object (re.Expr): read the value stored there
+						args[0] = Val{T: g.loadStruct(args[0].T, tn.Type()), Sort: g.st.sortOf(tn.Type()), Typ: tn.Type()}
+					}
+				}
+			}
+		}
+		if args[0].Typ == nil || !isRxExpr(args[0].Typ) {
+			return Val{}, fmt.Errorf("rxvalid expects a syntax.Expr value, got sort %s", args[0].Sort)
+		}
+		g.declRx(args[0].Typ)
+		return boolVal(app("rxvalid", args[0].T)), nil
 	case "astlist":
 		// astlist(s): the backing array of slice s is a list of the analysed (immutable) tree
 		g.declareFun("astlist", []string{"Int"}, "Bool")
